@@ -46,13 +46,22 @@ Inductive outcome :=
 | OBusyDeadline                 (* ServerIsBusy, reason "deadline is exceeded" *)
 | OStaleCommand | OStoreNotMatch | ODataIsNotReady | OMaxTsNotSynced | ODiskFull
 | OUnknown                      (* a region error of no known kind *)
+(* rarely produced answers *)
+| OUndetermined                 (* UndeterminedResult: for the caller *)
+| ORecovery | OWitness          (* RecoveryInProgress / IsWitness: invalidate, back off, hand the region error to the caller *)
+| OFlashback | OFlashbackNotPrepared
+| OKeyNotInRegion | OBucketVersion | OMismatchPeer
+| ORaftTooLarge                 (* RaftEntryTooLarge *)
+| ONotInitialized | OReadIndexNotReady | OMerging   (* RegionNotInitialized / ReadIndexNotReady / ProposalInMergingMode *)
+| OInvalidMaxTs                 (* message "invalid max_ts update" *)
+| ODeadlineMsg                  (* region error whose message says "Deadline is exceeded" *)
 | OSuccess.
 
-Inductive bo_kind := BoRPC | BoRegionMiss | BoRegionScheduling | BoBusy | BoDiskFull | BoMaxTs.
+Inductive bo_kind := BoRPC | BoRegionMiss | BoRegionScheduling | BoBusy | BoDiskFull | BoMaxTs | BoRecovery | BoWitness | BoNotInit.
 
 (* lower bound of one sleep of each kind (config/retry/config.go: base/2 for EqualJitter, base for NoJitter) *)
 Definition min_step (k : bo_kind) : N :=
-  match k with BoRPC => 50 | BoBusy => 1000 | BoDiskFull => 500 | _ => 2 end%N.
+  match k with BoRPC => 50 | BoBusy => 1000 | BoDiskFull => 500 | BoRecovery => 50 | BoWitness => 500 | _ => 2 end%N.
 Definition excluded (k : bo_kind) : bool := match k with BoBusy => true | _ => false end.
 Definition excl_limit : N := 600000%N.      (* isSleepExcluded[tikvServerBusy] *)
 Definition max_replica_attempt : nat := 10.  (* maxReplicaAttempt *)
@@ -67,7 +76,8 @@ Inductive result :=
 | RSuccess (i : nat)      (* the response of attempt i *)
 | RRegionErr (i : nat)    (* the region error answered to attempt i, handed to the caller *)
 | RPseudo                 (* the client-made EpochNotMatch: "no replica available" *)
-| RError.                 (* an error *)
+| RError                  (* an error: validation, budget, cancellation / kill *)
+| RFatal (i : nat).       (* the error the handler makes of attempt i's answer (flashback, RaftEntryTooLarge, invalid max_ts update) *)
 
 Record rep := mkRep {
   attempts : nat;
@@ -395,6 +405,14 @@ Definition on_not_leader_hint (lim : option nat) (s : state) (t k : nat) : hres 
     let s4 := if leader_candidate (rep_at s3 k) then set_rt RTLeader s3 else s3 in
     HRetry s4 (if was_exhausted then [ERearm k] else []).
 
+(* invalidate the region, back off, then hand the region error of attempt i to the caller (RecoveryInProgress, IsWitness) *)
+Definition backoff_then_region_err (c : cfg) (k : bo_kind) (s : state) (i : nat) : hres :=
+  match backoff c k (set_valid false s) with
+  | BoOk s' e => HDone s' (RRegionErr i) [e]
+  | BoRefused => HDone (set_valid false s) RError []
+  | BoKilled e => HDone (set_valid false s) RError [e]
+  end.
+
 (* replicaSelector.canFastRetry *)
 Definition can_fast_retry (s : state) : bool :=
   if rt_eqb (rt s) RTLeader then
@@ -440,6 +458,19 @@ Definition handle (fixed : bool) (c : cfg) (s : state) (t : nat) (o : outcome) (
   | ODataIsNotReady => HRetry (upd_rep t (set_f_dnr true) s) []
   | OMaxTsNotSynced => with_backoff c BoMaxTs s RError
   | ODiskFull => with_backoff c BoDiskFull s (RRegionErr i)
+  | OUndetermined | OBucketVersion => HDone s (RRegionErr i) []
+  | ORecovery => backoff_then_region_err c BoRecovery s i
+  | OWitness => backoff_then_region_err c BoWitness s i
+  | OFlashback =>
+      (* replicaSelector.onFlashbackInProgress: a replica read that hit a follower is retried on the leader *)
+      if q_rr s && negb (t =? leader s)
+      then HRetry (set_q_rr false (set_q_rt RTLeader (set_rt RTLeader (set_busy_thr false s)))) []
+      else HDone s (RFatal i) []
+  | OFlashbackNotPrepared | ORaftTooLarge | OInvalidMaxTs => HDone s (RFatal i) []
+  | OKeyNotInRegion | OMismatchPeer => HDone (set_valid false s) (RRegionErr i) []
+  | ONotInitialized => with_backoff c BoNotInit s RError
+  | OReadIndexNotReady | OMerging => with_backoff c BoRegionScheduling s RError
+  | ODeadlineMsg => if c_short_to c && c_read c then HRetry (upd_rep t (set_f_deadline true) s) [] else HRetry s []
   end.
 
 (* ---------------- choosing the next replica and sending ---------------- *)
